@@ -213,6 +213,8 @@ def model_rows(forests):
         p = line.split(" ")
         if p[0] == "RAWUNITS":
             cur["rawunits"] = [int(x) for x in p[1].split(",") if x]
+        elif p[0] == "WALK":
+            cur["walk"] = [int(x) for x in p[1].split(",") if x] if len(p) > 1 else []
         elif p[0] == "COOKEDUNITS":
             cur["cookedunits"] = [int(x) for x in p[1].split(",") if x]
         elif p[0] in ("RAW", "COOKED"):
